@@ -170,6 +170,8 @@ pub struct OnParseLog {
     pub calls: u64,
     /// attribute lines "<kind> <index> | <line>"
     pub lines: Vec<String>,
+    /// "<function index> <local index> <name>" for every local that carries a name right after parsing
+    pub local_names: Vec<String>,
     pub ids: InputIds,
 }
 
@@ -188,6 +190,9 @@ pub fn observe_on_parse(m: &Module, ids: &IndicesToIds, log: &mut OnParseLog, de
                 let mut tys = Vec::new();
                 while let Ok(lid) = ids.get_local(id, j) {
                     tys.push(vt(m.locals.get(lid).ty()));
+                    if let Some(n) = &m.locals.get(lid).name {
+                        log.local_names.push(format!("{} {} {}", i, j, n));
+                    }
                     j += 1;
                 }
                 log.lines.push(format!("locals {} | {}", i, tys.join(",")));
